@@ -68,6 +68,26 @@ pub fn main() {
     if std::env::var("OXIDD_STACK_SIZE").is_err() {
         unsafe { std::env::set_var("OXIDD_STACK_SIZE", "2097152") };
     }
+    if prop == "FZSEEDS" {
+        fz::write_seeds(&format!("{}/harness/fuzz/seeds", engine::verif_dir()));
+        return;
+    }
+    if prop == "FZRUN" {
+        // vrun FZRUN quick <target> <file>...: run saved inputs through a fuzz entry point in-process
+        let t = args.get(3).cloned().unwrap_or_default();
+        let mut bad = 0;
+        for f in &args[4.min(args.len())..] {
+            let d = std::fs::read(f).unwrap_or_default();
+            match fz::run_target(&t, &d) {
+                Ok(()) => println!("{f}: ok"),
+                Err(m) => {
+                    bad += 1;
+                    println!("{f}: {m}");
+                }
+            }
+        }
+        std::process::exit(if bad > 0 { 1 } else { 0 });
+    }
     if prop == "DBG2" {
         use kinds::BoolKind;
         use oxidd::{BooleanFunction, ManagerRef, Manager};
